@@ -167,6 +167,17 @@ func (w *world) obs() Obs {
 	return o
 }
 
+func (w *world) groupExists(gid uint64) bool {
+	for _, rp := range w.data.Databases[db].RetentionPolicies {
+		for _, sg := range rp.ShardGroups {
+			if sg.ID == gid {
+				return true
+			}
+		}
+	}
+	return false
+}
+
 func (w *world) listed(sid uint64) bool {
 	for _, rp := range w.data.Databases[db].RetentionPolicies {
 		for _, sg := range rp.ShardGroups {
@@ -226,6 +237,16 @@ func (w *world) apply(ev *Event) (fails []string, ok bool) {
 			d, okp := w.polDur(w.rpOf[id])
 			before[id] = pre{w.ends[id], d, okp, w.listed(id)}
 		}
+		groupsBefore := map[uint64][]uint64{}
+		for _, rp := range w.data.Databases[db].RetentionPolicies {
+			for _, sg := range rp.ShardGroups {
+				for _, sh := range sg.Shards {
+					if !sh.MarkDelete {
+						groupsBefore[sg.ID] = append(groupsBefore[sg.ID], sh.ID)
+					}
+				}
+			}
+		}
 		w.deleted = nil
 		w.svc.VerifHandle()
 		gone := map[uint64]bool{}
@@ -239,6 +260,20 @@ func (w *world) apply(ev *Event) (fails []string, ok bool) {
 			}
 			if !gone[id] && p.listed && p.hasPol && exp {
 				fails = append(fails, fmt.Sprintf("shard %d kept at now=%d although end=%d d=%d is expired (no eventual removal)", id, ev.Now, p.end, p.d))
+			}
+		}
+		// catalogue side: a group of a limited policy, all of whose shards were on this node, listed and expired
+		// before the step, must be gone from the catalogue after it
+		for gid, members := range groupsBefore {
+			allExp := len(members) > 0
+			for _, id := range members {
+				p, okb := before[id]
+				if !okb || !(p.listed && p.hasPol && p.d != 0 && p.end+p.d < ev.Now) {
+					allExp = false
+				}
+			}
+			if allExp && w.groupExists(gid) {
+				fails = append(fails, fmt.Sprintf("group %d still in the catalogue after tick now=%d although all its shards were expired and deleted", gid, ev.Now))
 			}
 		}
 		return fails, true
